@@ -250,5 +250,38 @@ theorem WFExprs.append : ∀ {l : List Expr} {p : Expr} {lo hi : Nat}, WFExprs t
   | [], _, _, _, _, hp => ⟨hp, trivial⟩
   | _ :: ps, _, _, _, h, hp => ⟨h.1, WFExprs.append (l := ps) h.2 hp⟩
 
+
+/-! `Expr.span` on constructors (simp set used by `nums`; `Expr.span` itself must not be unfolded on variables) -/
+theorem Expr.span_null {sp} : (Expr.null sp).span = sp := rfl
+theorem Expr.span_bool {b sp} : (Expr.bool b sp).span = sp := rfl
+theorem Expr.span_selfObj {sp} : (Expr.selfObj sp).span = sp := rfl
+theorem Expr.span_dollar {sp} : (Expr.dollar sp).span = sp := rfl
+theorem Expr.span_str {s sp} : (Expr.str s sp).span = sp := rfl
+theorem Expr.span_textBlock {s sp} : (Expr.textBlock s sp).span = sp := rfl
+theorem Expr.span_number {n sp} : (Expr.number n sp).span = sp := rfl
+theorem Expr.span_paren {e sp} : (Expr.paren e sp).span = sp := rfl
+theorem Expr.span_object {o sp} : (Expr.object o sp).span = sp := rfl
+theorem Expr.span_array {items sp} : (Expr.array items sp).span = sp := rfl
+theorem Expr.span_arrayComp {e spec sp} : (Expr.arrayComp e spec sp).span = sp := rfl
+theorem Expr.span_field {e name sp} : (Expr.field e name sp).span = sp := rfl
+theorem Expr.span_index {e i sp} : (Expr.index e i sp).span = sp := rfl
+theorem Expr.span_slice {e i1 i2 i3 sp} : (Expr.slice e i1 i2 i3 sp).span = sp := rfl
+theorem Expr.span_superField {ssp name sp} : (Expr.superField ssp name sp).span = sp := rfl
+theorem Expr.span_superIndex {ssp i sp} : (Expr.superIndex ssp i sp).span = sp := rfl
+theorem Expr.span_call {f args ts sp} : (Expr.call f args ts sp).span = sp := rfl
+theorem Expr.span_ident {i sp} : (Expr.ident i sp).span = sp := rfl
+theorem Expr.span_local {binds body sp} : (Expr.local_ binds body sp).span = sp := rfl
+theorem Expr.span_ite {c t e sp} : (Expr.ite_ c t e sp).span = sp := rfl
+theorem Expr.span_binary {l op r sp} : (Expr.binary l op r sp).span = sp := rfl
+theorem Expr.span_unary {op e sp} : (Expr.unary op e sp).span = sp := rfl
+theorem Expr.span_objExt {e o osp sp} : (Expr.objExt e o osp sp).span = sp := rfl
+theorem Expr.span_func {params body sp} : (Expr.func params body sp).span = sp := rfl
+theorem Expr.span_assert {a body sp} : (Expr.assert_ a body sp).span = sp := rfl
+theorem Expr.span_import {e sp} : (Expr.import_ e sp).span = sp := rfl
+theorem Expr.span_importStr {e sp} : (Expr.importStr e sp).span = sp := rfl
+theorem Expr.span_importBin {e sp} : (Expr.importBin e sp).span = sp := rfl
+theorem Expr.span_error {e sp} : (Expr.error_ e sp).span = sp := rfl
+theorem Expr.span_inSuper {e ssp sp} : (Expr.inSuper e ssp sp).span = sp := rfl
+
 end Rsj.Parser
 
